@@ -34,10 +34,10 @@ M("c02-index-after-extend", "C02", "break", (H, "            oi = len(hdr_option
 M("c02-resolve-wrong-count", "C02", "break", (H, "            options_2=options[oi2 : oi2 + no2],", "            options_2=options[oi2 : oi2 + no1],"))
 M("c02-find-returns-i-minus-n", "C02", "break", (H, "            return i - n + 1", "            return i - n"))
 M("c02-find-compares-wrong-element", "C02", "break", (H, "if haystack[i - j] != needle[-j - 1]:", "if haystack[i - j] != needle[-j]:"))
-M("c02-bounds-check-off-by-one", "C02,C20", "break", (H, "        if oi2 + no2 > num_options:", "        if oi2 + no2 > num_options + 1:"))
+M("c02-bounds-check-off-by-one", "C02", "break", (H, "        if oi2 + no2 > num_options:", "        if oi2 + no2 > num_options + 1:"))
 M("c02-ttl-high-masked", "C02", "break", (H, "            self.ttl >> 16,", "            (self.ttl >> 16) & 0xFF,"))
 M("c02-assign-reversed", "C02", "break", (H, "        entries = [e.assign_option_index(options) for e in self.entries]", "        entries = [e.assign_option_index(options) for e in reversed(self.entries)]"))
-M("c02-sd-framing-guard", "C02,C20", "break", (H, "        if len(rest_buf) < entries_length + 4:", "        if len(rest_buf) < entries_length:"))
+M("c02-sd-framing-guard", "C02", "break", (H, "        if len(rest_buf) < entries_length + 4:", "        if len(rest_buf) < entries_length:"))
 M("c02-duplicate-option-type", "C02", "break", (H, "    type: typing.ClassVar[int] = 0x16", "    type: typing.ClassVar[int] = 0x14"))
 M("c02-ip-option-swaps-port-proto", "C02,C20", "break", (H, "self._format.pack(0, self.address.packed, 0, self.l4proto, self.port)", "self._format.pack(0, self.address.packed, 0, self.port, self.l4proto)"))
 M("c02-config-length", "C02,C20", "break", (H, "                buf.append(len(k) + len(v) + 1)", "                buf.append(len(k) + len(v))"))
@@ -151,7 +151,7 @@ M("c13-no-found-filter", "C13", "break", (S, "                if not self._servi
 M("c13-one-more-round", "C13", "break", (S, "        for i in range(self.timings.REPETITIONS_MAX):\n            await asyncio.sleep(\n                (2 ** i) * self.timings.REPETITIONS_BASE_DELAY\n            )  # 4.2.1: SWS_SD_00363", "        for i in range(self.timings.REPETITIONS_MAX + 1):\n            await asyncio.sleep(\n                (2 ** i) * self.timings.REPETITIONS_BASE_DELAY\n            )  # 4.2.1: SWS_SD_00363"))
 M("c13-continue-instead-of-return", "C13", "break", (S, "            find_entries = _build_entries()\n            if not find_entries:\n                return\n            self.sd.send_sd(find_entries)  # 4.2.1: SWS_SD_00457", "            find_entries = _build_entries()\n            if not find_entries:\n                continue\n            self.sd.send_sd(find_entries)  # 4.2.1: SWS_SD_00457"))
 M("c13-find-ttl", "C13", "break", (S, "                service.create_find_entry(self.timings.FIND_TTL)", "                service.create_find_entry(self.timings.ANNOUNCE_TTL)"))
-M("c13-found-by-offer-match", "C13,C05", "break", (S, "        return any(service.matches_service(s) for s in self.found_services.entries())", "        return any(s.matches_offer(service.create_offer_entry()) for s in self.found_services.entries())"))
+M("c13-found-by-offer-match", "C13", "break", (S, "        return any(service.matches_service(s) for s in self.found_services.entries())", "        return any(s.matches_offer(service.create_offer_entry()) for s in self.found_services.entries())"))
 M("c13-find-to-unicast", "C13", "break", (S, "            self.sd.send_sd(find_entries)  # 4.2.1: SWS_SD_00457", "            self.sd.send_sd(find_entries, remote=(\"192.0.2.1\", 30490))  # 4.2.1: SWS_SD_00457"))
 
 # ---------------------------------------------------------------- C14
@@ -221,3 +221,9 @@ M("c04-announcer-not-told-about-reboot", "C04,C07", "break", (S, "        self.s
 M("c04-connection-lost-keeps-services", "C04,C05", "break", (S, "        self.found_services.stop_all()", "        pass"))
 M("c04-stop-keeps-subscriptions", "C04,C06", "break", (S, "        self.subscriptions.stop_all()\n", ""))
 M("c04-offers-ignored", "C04", "break", (S, "            if entry.sd_type == someip.header.SOMEIPSDEntryType.OfferService:\n                asyncio.get_event_loop().call_soon(\n                    self.discovery.handle_offer, entry, addr\n                )\n                continue", "            if entry.sd_type == someip.header.SOMEIPSDEntryType.OfferService:\n                continue"))
+
+# guard-only changes must not alarm the canonicalisation property, nor a find-only change the discovery history
+M("c20-twin-bounds-check-weaker", "C20", "benign", (H, "        if oi2 + no2 > num_options:", "        if oi2 + no2 > num_options + 1:"))
+M("c20-twin-sd-framing-guard-weaker", "C20", "benign", (H, "        if len(rest_buf) < entries_length + 4:", "        if len(rest_buf) < entries_length:"))
+M("c20-twin-length-guard-stricter", "C20", "benign", (H, "        if size < 8:", "        if size <= 8:"))
+M("c05-twin-found-predicate", "C05", "benign", (S, "        return any(service.matches_service(s) for s in self.found_services.entries())", "        return any(s.matches_offer(service.create_offer_entry()) for s in self.found_services.entries())"))
